@@ -397,34 +397,71 @@ func c20OutputFiles(c *Ctx) {
 // every path (from JSON text, or from the structured form marshalled and decoded again): the subprocess's messages
 // are JSON-decoded values, and the matcher does not find a YAML pattern's int among their float64s.
 func c19Canonical(c *Ctx, F *ssa.Function, matchCall *ssa.Call) {
-	pat := matchCall.Common().Args[0]
-	cell := cellOf(pat)
-	if cell == nil {
-		c.R.Violate("C19-R7", "Run: the pattern handed to the matcher was decoded from JSON", c.pos(matchCall), "the pattern operand is not a variable that a JSON decode has filled")
-		return
+	// decodedAt: v is (a load of) a variable that a json.Unmarshal has filled on every way to block `at` of fn
+	decodedAt := func(fn *ssa.Function, v ssa.Value, at *ssa.BasicBlock) bool {
+		cell := cellOf(v)
+		if cell == nil {
+			return false
+		}
+		dec := map[*ssa.BasicBlock]bool{}
+		ssau.Instrs(fn, func(in ssa.Instruction) {
+			cl, ok := in.(*ssa.Call)
+			if !ok || ssau.CalleeName(cl) != "encoding/json.Unmarshal" || len(cl.Common().Args) < 2 {
+				return
+			}
+			dst := cl.Common().Args[1]
+			if mi, isMI := dst.(*ssa.MakeInterface); isMI {
+				dst = mi.X
+			}
+			if dst == cell {
+				dec[cl.Block()] = true
+			}
+		})
+		if len(dec) == 0 {
+			return false
+		}
+		for _, st := range storedIntoInstrs(cell) {
+			if dec[st.Block()] {
+				continue
+			}
+			if st.Block() == at || flow.Reachable(st.Block(), at, dec) {
+				return false
+			}
+		}
+		return true
 	}
-	dec := map[*ssa.BasicBlock]bool{}
-	ssau.Instrs(F, func(in ssa.Instruction) {
-		cl, ok := in.(*ssa.Call)
-		if !ok || ssau.CalleeName(cl) != "encoding/json.Unmarshal" || len(cl.Common().Args) < 2 {
-			return
+	pat := matchCall.Common().Args[0]
+	ok := false
+	if cellOf(pat) != nil {
+		ok = decodedAt(F, pat, matchCall.Block())
+	} else {
+		// prepared by a helper of the package: every pattern it returns has been decoded
+		var hc *ssa.Call
+		for _, d := range phiDefs(pat, nil, map[ssa.Value]bool{}) {
+			if ex, isEx := d.(*ssa.Extract); isEx && ex.Index == 0 {
+				d = ex.Tuple
+			}
+			if cl, isC := d.(*ssa.Call); isC && cl.Common().StaticCallee() != nil && cl.Common().StaticCallee().Blocks != nil {
+				hc = cl
+			}
 		}
-		dst := cl.Common().Args[1]
-		if mi, isMI := dst.(*ssa.MakeInterface); isMI {
-			dst = mi.X
-		}
-		if dst == cell {
-			dec[cl.Block()] = true
-		}
-	})
-	// from where the variable gets the Output's pattern, the matcher is not reachable without a decode
-	ok := len(dec) > 0
-	for _, st := range storedIntoInstrs(cell) {
-		if dec[st.Block()] || st.Block() == matchCall.Block() && !dec[st.Block()] {
-			continue
-		}
-		if flow.Reachable(st.Block(), matchCall.Block(), dec) {
-			ok = false
+		if hc != nil {
+			h := hc.Common().StaticCallee()
+			ok = true
+			n := 0
+			for _, b := range h.Blocks {
+				ret, isRet := b.Instrs[len(b.Instrs)-1].(*ssa.Return)
+				if !isRet || len(ret.Results) == 0 || ssau.IsNilConst(ret.Results[0]) {
+					continue
+				}
+				n++
+				if !decodedAt(h, ret.Results[0], b) {
+					ok = false
+				}
+			}
+			if n == 0 {
+				ok = false
+			}
 		}
 	}
 	c.R.Check(ok, "C19-R7", "Run: the pattern handed to the matcher was decoded from JSON", c.pos(matchCall), "every way from the Output's pattern to the matcher passes json.Unmarshal into the pattern variable", "a pattern given as a structure reaches the matcher as it was decoded from YAML (ints, not float64s): a number inside an array never matches what the subprocess emits, so a forbidden message goes unnoticed (and an expected one times out)")
